@@ -286,6 +286,75 @@ def run_tv(pid, tier, seed, out):
     return divs
 
 
+def record_corpus(pid, tier, wd):
+    """Runs (part of) the repository's own test suite with the recording plugin against the current tree; returns the traces."""
+    import subprocess
+    files = props.ALL_TESTS if tier == 'thorough' else props.CORPUS.get(pid, [])
+    if not files:
+        return [], None
+    os.makedirs(wd, exist_ok=True)
+    outf = os.path.join(wd, 'corpus.json')
+    src = os.environ.get('H2_REPO_SRC', '/repo/src')
+    env = dict(os.environ, PYTHONPATH=src + os.pathsep + ROOT, REC_OUT=outf, PYTHONHASHSEED='0')
+    p = subprocess.run([sys.executable, '-m', 'pytest', '-q', '-p', 'no:cacheprovider', '-p', 'harness.recplug', '--no-header',
+                        '-o', 'addopts='] + files, cwd='/repo', env=env, stdout=subprocess.PIPE, stderr=subprocess.STDOUT, text=True)
+    if not os.path.exists(outf):
+        return None, 'recording the test suite failed: ' + p.stdout[-800:]
+    traces = json.load(open(outf))
+    return traces, None
+
+
+def run_corpus(pid, tier, seed, out):
+    """Code -> spec on the repository's own tests: what they do to every H2Connection is recorded and judged by TLC."""
+    wd = os.path.join(WORK, '%s-%s-%d-corpus' % (pid, tier, os.getpid()))
+    t0 = time.time()
+    traces, err = record_corpus(pid, tier, wd)
+    co = out['corpus']
+    if err:
+        out['machinery'].append(err)
+        shutil.rmtree(wd, ignore_errors=True)
+        return []
+    if not traces:
+        shutil.rmtree(wd, ignore_errors=True)
+        return []
+    rec_s = time.time() - t0
+    res, stats = tv.validate(traces, wd, per_shard=60)
+    shutil.rmtree(wd, ignore_errors=True)
+    co.update({'tests': 'the whole suite' if tier == 'thorough' else props.CORPUS.get(pid, []), 'connections_recorded': len(traces),
+               'steps': sum(len(t['steps']) for t in traces), 'record_wall_s': round(rec_s, 1), 'tlc_wall_s': stats['tlc_wall_s'],
+               'tlc_runs': stats['tlc_runs'], 'states': stats['distinct'], 'transitions': stats['generated'],
+               'recordings_ended_early': dict(collections.Counter((t.get('stopped') or 'complete')[:60] for t in traces))})
+    if stats['errors']:
+        out['machinery'].append('corpus validation: TLC failed: ' + stats['errors'][0][:1500])
+        return []
+    verdicts = collections.Counter()
+    divs = []
+    for t, r in zip(traces, res):
+        verdicts[r['k']] += 1
+        if r['k'] == 'missing':
+            out['machinery'].append('corpus validation: no verdict for %s' % t['id'])
+        elif r['k'] == 'rejected':
+            st = t['steps'][r['at'] - 1]
+            fields = driver_fields(r['pred'], st['p'], r['fields'])
+            divs.append({'kind': 'diverged', 'phase': 'step', 'step': r['at'], 'fields': fields,
+                         'call': st.get('c', st.get('fs', st.get('k'))), 'a': st['a'], 'x': st['x'],
+                         'expected': {k.split('.')[0]: r['pred'].get(k.split('.')[0]) for k in fields},
+                         'observed': {k.split('.')[0]: st['p'].get(k.split('.')[0]) for k in fields},
+                         'dev': r.get('dev') or [], 'dev_before': r.get('devb') or [], 'scenario': 'repository test ' + t['id'],
+                         'meta': t['meta'], 'steps': None,
+                         'what': 'what the repository test %s does to a connection is not a behaviour of the specification from step %d on'
+                                 % (t['id'], r['at']),
+                         'tv_trace': {'id': t['id'], 'meta': t['meta'], 'steps': [strip_obs(x) for x in t['steps'][:r['at']]]}})
+        for s_ in t['steps'][: (r['at'] if r['k'] in ('rejected', 'cut') else len(t['steps']))]:
+            k = step_key(s_)
+            if k not in out['pairs']:
+                out['pairs'][k] = nontrivial(s_)
+    co['verdicts'] = dict(verdicts)
+    out['behaviours'] += len(traces)
+    out['steps'] += co['steps']
+    return divs
+
+
 def strip_obs(s):
     return {k: v for k, v in s.items() if k != 'p'}
 
@@ -315,7 +384,7 @@ def do_check(pid, tier, seed):
     catalogue = replay.load_catalogue()
     out = {'scenarios': [], 'machinery': [], 'formula_violations': [], 'pairs': {}, 'ops': collections.Counter(),
            'dev_seen': collections.Counter(), 'behaviours': 0, 'steps': 0, 'samples': [],
-           'tv': {'divs': [], 'propfails': collections.Counter()}}
+           'tv': {'divs': [], 'propfails': collections.Counter()}, 'corpus': {}}
     violations = []
     known_lines = []
     notes = []
@@ -351,6 +420,8 @@ def do_check(pid, tier, seed):
     # (4) recorded random executions: code -> spec
     all_divs += run_tv(pid, tier, seed, out)
     all_divs += out['tv'].pop('divs')
+    # (5) the repository's own tests, recorded: code -> spec
+    all_divs += run_corpus(pid, tier, seed, out)
     foreign = collections.Counter()
     tainted = collections.Counter()
     for d in all_divs:
@@ -394,8 +465,8 @@ def do_check(pid, tier, seed):
                 print('  %s' % v['what'][:600])
 
     nontriv = sum(1 for v in out['pairs'].values() if v)
-    states = sum(s['states'] for s in out['scenarios']) + out['tv'].get('states', 0)
-    trans = sum(s['transitions'] for s in out['scenarios']) + out['tv'].get('transitions', 0)
+    states = sum(s['states'] for s in out['scenarios']) + out['tv'].get('states', 0) + out['corpus'].get('states', 0)
+    trans = sum(s['transitions'] for s in out['scenarios']) + out['tv'].get('transitions', 0) + out['corpus'].get('transitions', 0)
     ev = {
         'property_id': pid, 'tier': tier, 'seed': seed, 'level': spec.get('level', 'model_checking'),
         'coverage': {
@@ -404,6 +475,7 @@ def do_check(pid, tier, seed):
             'model_behaviours_replayed_into_code': n_model_behaviours,
             'recorded_traces_validated_by_tlc': out['tv'].get('traces', 0),
             'trace_validation': dict(out['tv'], propfails=dict(out['tv']['propfails'])),
+            'repository_tests_recorded_and_validated': out['corpus'],
             'deviation_branches_still_reproducing': sorted(alive),
             'steps_replayed': out['steps'],
             'evaluations': out['behaviours'],
